@@ -16,7 +16,8 @@ LEVEL = "proof"
 ASSUMPTIONS = [
     "the supplied callable / generator is abstracted as: at call (yield) number k it raises an arbitrary exception type from the listed "
     "family (including StopIteration, GeneratorExit-free), for every k from 0 to the number of cells (case split, complete per shape); "
-    "before that it returns notes whose five fields are symbolic; it does not itself modify the pattern",
+    "before that it returns notes whose five fields are symbolic; it does not itself modify the pattern - but the generator may rewrite "
+    "the cells of the scratch array it is handed in place and yield them (setter kind 'gen_inplace', documented as possible)",
     "pattern shapes are enumerated (1x1, 2x2, 3x1 quick; up to 3x3 thorough); cell contents before the edit are symbolic",
     "both an attached and an unattached pattern, and a second bulk edit after the first (success or failure)",
 ]
@@ -39,7 +40,7 @@ def _shape_cases(tier):
     shapes = [(1, 1), (2, 2), (3, 1)] if tier == "quick" else [(1, 1), (1, 2), (2, 1), (2, 2), (3, 1), (1, 3), (3, 2), (3, 3)]
     out = []
     for l, t in shapes:
-        for setter in ("fn", "gen"):
+        for setter in ("fn", "gen", "gen_inplace"):
             for attached in (True, False):
                 out.append((f"{l}x{t},{setter},{'attached' if attached else 'loose'}", (l, t, setter, attached)))
     return out
@@ -87,6 +88,12 @@ def _edit(H, pat, setter, fail_at, exc_type, supplied, touched, parity=0):
                     note = supplied[k]
                     touched[(line, track)] = note
                     k += 1
+                    if setter == "gen_inplace":
+                        # "It is possible, but discouraged, to directly change the new note array": the cell of the
+                        # array handed to the generator is rewritten field by field and yielded itself
+                        cell = new[line][track]
+                        cell.note, cell.vel, cell.module, cell.ctl, cell.val = note.note, note.vel, note.module, note.ctl, note.val
+                        note = cell
                     yield line, track, note
         if fail_at is not None and k == fail_at:
             raise exc_type("injected")
@@ -108,6 +115,8 @@ def bulk_edit_all_or_nothing(H, case):
     lines, tracks, setter, attached = case
     pat, proj = _make_pattern(H, lines, tracks, attached)
     ncalls = lines * tracks if setter == "fn" else (lines * tracks + 1) // 2
+    # old cell objects: whatever the callable does to the array it is handed, these must not change on failure
+    old_cells = [n for row in pat.data for n in row]
     fail_at = H.choice("fail_at", [None] + list(range(ncalls + (0 if setter == "fn" else 1))))
     exc_type = H.choice("exception", EXC_TYPES) if fail_at is not None else None
     supplied = [_supplied(H, k) for k in range(ncalls)]
@@ -120,6 +129,7 @@ def bulk_edit_all_or_nothing(H, case):
                                                             or isinstance(exc, RuntimeError)))
         H.check("contents_object_kept_on_failure", pat.data is before_obj)
         H.check("cells_unchanged_on_failure", H.eq(_cells(pat), before))
+        H.check("cell_objects_kept_on_failure", all(a is b for a, b in zip([n for row in pat.data for n in row], old_cells)))
         # the pattern stays usable: a second, successful edit
         supplied2 = [_supplied(H, 100 + k) for k in range(ncalls)]
         touched2 = {}
